@@ -3,6 +3,7 @@ package checks
 import (
 	"encoding/json"
 	"fmt"
+	"regexp"
 	"sort"
 	"strings"
 	"testing"
@@ -448,6 +449,24 @@ func init() {
 			r.Report(k, m, "C06/sema", &c)
 		}
 	})
+	hx.RegisterReplayer("C06/workflow-subset", func(r *hx.Run, data json.RawMessage) {
+		var c c06wfCase
+		if err := json.Unmarshal(data, &c); err != nil {
+			panic(err)
+		}
+		base, _, _, _ := lintSafe([]byte(c.Base))
+		got, _, _, _ := lintSafe([]byte(c.Loose))
+		have := map[string]bool{}
+		for _, d := range base {
+			have[fmt.Sprintf("%d:%d:%s", d.Line, d.Col, d.Kind)] = true
+		}
+		for _, d := range got {
+			if !have[fmt.Sprintf("%d:%d:%s", d.Line, d.Col, d.Kind)] {
+				r.Report("C06/step-id-as-expression-introduces-diagnostic", fmt.Sprintf("diagnostic %s appears only after %s", d, c.What), "C06/workflow-subset", &c)
+				return
+			}
+		}
+	})
 	hx.RegisterReplayer("C06/workflow", func(r *hx.Run, data json.RawMessage) {
 		var c c06wfCase
 		if err := json.Unmarshal(data, &c); err != nil {
@@ -651,6 +670,48 @@ func TestC06(t *testing.T) {
 			}
 		})
 
+		// defining sections given by an expression instead of a literal (step ids): never a new diagnostic
+		reIDLine := regexp.MustCompile(`(?m)^(\s+(?:- )?)id: (\S+)$`)
+		r.Check(t, "definition-becomes-expression", hx.N(1500, 30000), func(rt *rapid.T) {
+			c5, _, _ := genC05Shape(rt, nil)
+			locs := reIDLine.FindAllStringSubmatchIndex(c5.YAML, -1)
+			if len(locs) == 0 {
+				r.Eval()
+				r.Class("definition-becomes-expression/no-step-id")
+				return
+			}
+			loosened := c5.YAML
+			// replace 1-2 ids, from the end so that offsets stay valid
+			n := rapid.IntRange(1, min(2, len(locs))).Draw(rt, "nids")
+			picks := map[int]bool{}
+			for len(picks) < n {
+				picks[rapid.IntRange(0, len(locs)-1).Draw(rt, "idpick")] = true
+			}
+			for i := len(locs) - 1; i >= 0; i-- {
+				if picks[i] {
+					id := loosened[locs[i][4]:locs[i][5]]
+					loosened = loosened[:locs[i][4]] + "${{ format('{0}', '" + id + "') }}" + loosened[locs[i][5]:]
+				}
+			}
+			base, err1, p1, _ := lintSafe([]byte(c5.YAML))
+			got, err2, p2, _ := lintSafe([]byte(loosened))
+			r.Eval()
+			if p1 != nil || p2 != nil || err1 != nil || err2 != nil {
+				return
+			}
+			have := map[string]bool{}
+			for _, d := range base {
+				have[fmt.Sprintf("%d:%d:%s", d.Line, d.Col, d.Kind)] = true
+			}
+			r.NT(loosened)
+			r.Class("definition-becomes-expression/step-id")
+			for _, d := range got {
+				if !have[fmt.Sprintf("%d:%d:%s", d.Line, d.Col, d.Kind)] {
+					c := &c06wfCase{Base: c5.YAML, Loose: loosened, What: "writing step ids as expressions"}
+					r.Fail(rt, "C06/step-id-as-expression-introduces-diagnostic", fmt.Sprintf("diagnostic %s appears only after step ids were written as expressions\n--- base\n%s\n--- loosened\n%s", d, c5.YAML, loosened), "C06/workflow-subset", c)
+				}
+			}
+		})
 		r.Check(t, "workflow-loosening", hx.N(1500, 30000), func(rt *rapid.T) {
 			// matrix with rows; steps referencing them
 			type row struct {
